@@ -64,6 +64,9 @@ class Section(Node):
             super().__init__(*args)
 
         def add(self, v: ByteInterval) -> None:
+            if v in self._data:
+                # Already a member: nothing to do, as for a built-in set.
+                return
             if v._section is not None:
                 v._section.byte_intervals.discard(v)
             self._node._index_add(v)
